@@ -124,6 +124,7 @@ func init() {
 		ID: "C04",
 		Rules: []Rule{
 			{"I1", "isolation: no function outside init writes (store, map update, copy/append target, callee that writes through the argument, unknown external callee) memory reachable from a package-level variable; no goroutines, unsafe or sync", ruleI1},
+			{"O1", "every returned offset of the offset-returning functions (f(buf, offs, ...) -> int, ...) is provably <= len(buf): linear guards, induction on the loop index, callee postconditions (greatest fixpoint), under the API precondition offs <= len(buf); 'offset + line-end length' returns are listed as assumed", ruleO1},
 			{"G", "every index and slice expression outside init is discharged by a frozen proof rule: G2 index range (intervals, masks, enum guards) within a fixed array length; G3 dominated by a linear guard on the same SSA values (i < len(buf), i+1 < len(buf), N < len(arr) with no intervening write); the trusted accessor GetPField; named exceptions", ruleG},
 			{"P1", "explicit panic calls outside init are confined to the two documented PField assertions", ruleP1},
 		},
